@@ -1,5 +1,5 @@
 """Which quick check catches which seeded change: runs every property's quick check against every seeded patch
-(scratch copies outside /repo and /verif).  usage: matrix.py <out.json> [parallel]"""
+(scratch copies outside /repo and /verif).  usage: matrix.py <out.json> [parallel [own [prefix]]]"""
 import json
 import os
 import shutil
@@ -12,6 +12,9 @@ VERIF = os.path.dirname(os.path.dirname(os.path.abspath(__file__)))
 PROPS = [f"C{n:02d}" for n in range(1, 21)]
 
 
+ONLY_OWN = False
+
+
 def one(name):
     tmp = tempfile.mkdtemp(prefix="mx_")
     try:
@@ -19,7 +22,7 @@ def one(name):
         shutil.copytree("/repo", mut, ignore=shutil.ignore_patterns(".git", "__pycache__"))
         subprocess.run(f"patch -p1 -s < {VERIF}/seeded/{name}/patch.diff", cwd=mut, shell=True, check=True)
         row = {}
-        for pid in PROPS:
+        for pid in ([name[:3]] if ONLY_OWN else PROPS):
             env = dict(os.environ, VERIF_REPO=mut, TERM="xterm-256color", LC_ALL="C.UTF-8")
             p = subprocess.run(f"./check {pid} --tier quick", cwd=VERIF, env=env, shell=True, capture_output=True, text=True, timeout=1800)
             row[pid] = p.returncode
@@ -31,7 +34,11 @@ def one(name):
 def main():
     out = sys.argv[1]
     par = int(sys.argv[2]) if len(sys.argv) > 2 else 2
+    global ONLY_OWN
     names = sorted(d for d in os.listdir(os.path.join(VERIF, "seeded")) if os.path.exists(os.path.join(VERIF, "seeded", d, "patch.diff")))
+    if len(sys.argv) > 3:      # matrix.py out.json par own [prefix]: each change against its own property's check only
+        ONLY_OWN = True
+        names = [n for n in names if n.startswith(sys.argv[4])] if len(sys.argv) > 4 else names
     res = {}
     with ThreadPoolExecutor(max_workers=par) as ex:
         for name, row in ex.map(one, names):
